@@ -690,7 +690,7 @@ def vg_protocol(F, v):
     terms = []
     for ex in m.up_exits:
         terms += list(ex.fields.values()) + [c for c in ex.pc if isinstance(c, tuple)]
-    terms.append(m.last_ret)
+    # (last() runs after update(): a child read there is the child's current output, epoch 0 of that function's own graph)
     for t in terms:
         for x in subterms(t):
             if x[0] == 'childlast' and x[1] in inputs and x[2] < 1:
@@ -750,6 +750,9 @@ def run_c01(F, R):
                 from .model import model as _model
                 if _model(F, v).touched:
                     up.gate_seen = True     # state is written, and V3 showed it is only written when the inner view delivered
+                # which children receive the raw value is read off the value graph as well
+                fed_raw = {cp for cp, feeds in _model(F, v).up_vg.child_fed.items() if any(f_[1][0] == 'arg' for f_ in feeds)}
+                up.input_children = {c for c in up.children if c in fed_raw} or up.input_children
         clean = not [o for o in R.obligations[start:] if not o[2]]
         for c in up.children:
             if c in up.input_children:
